@@ -57,7 +57,7 @@ PROBES = os.path.join(ROOT, "probes")
 ENV = dict(os.environ, CARGO_NET_OFFLINE="true")
 NCPU = min(16, os.cpu_count() or 4)
 
-PROPS = ("C03", "C12", "C13", "C16", "C19", "C20")
+PROPS = ("C03", "C09", "C10", "C12", "C13", "C16", "C19", "C20")
 KNOWN_KEYS = {
     "proj: <T: ?Sized> DerefWrite for &T": "derefwrite-shared-ref",
 }
@@ -154,12 +154,15 @@ MODEL_OF = {
     "SigTable": ["Model/Conjure"],
     "CallGraph": ["Model/CallGraphM"],
     "BrandFlow": ["Model/BrandFlow"],
+    "PacingConsts": ["Model/Metrics"],
 }
-PROP_TABLE = {"C12": "BrandFlow", "C13": "DerefWriteTable", "C16": "CollectTable", "C19": "SigTable", "C03": "CallGraph", "C20": "CallGraph"}
+PROP_TABLE = {"C09": "PacingConsts", "C10": "PacingConsts", "C12": "BrandFlow", "C13": "DerefWriteTable", "C16": "CollectTable", "C19": "SigTable", "C03": "CallGraph", "C20": "CallGraph"}
 PROP_EXTRA = {"C03": ["Proofs/CallGraphDefs"], "C20": ["Proofs/CallGraphDefs"],
               # Props/C12s re-exports the untraced-static rule of the Collect table
               "C12": ["Model/CollectTy", "Generated/CollectTable", "Proofs/CollectLemmas"]}
 PROP_ELAB = {
+    "C09": ["Props/C09s"],
+    "C10": ["Props/C09s"],
     "C12": ["Proofs/BrandFlowLemmas", "Props/C12s"],
     "C13": ["Proofs/WriteCapLemmas", "Props/C13"],
     "C16": ["Proofs/CollectLemmas", "Props/C16"],
@@ -168,7 +171,38 @@ PROP_ELAB = {
     "C20": ["Props/C20s"],
 }
 
+PACING_EVAL = r'''import GcArena.Generated.PacingConsts
+open GcArena GcArena.Generated
+def cmpR (nm : String) (a b : Rat) : List String :=
+  if a = b then [] else [s!"{nm}: source {repr a}, model {repr b}"]
+def cmpN (nm : String) (a b : Nat) : List String :=
+  if a = b then [] else [s!"{nm}: source {a}, model {b}"]
+def cmpP (nm : String) (a b : Pacing) : List String :=
+  cmpR (nm ++ ".sleep_factor") a.sleepFactor b.sleepFactor ++ cmpN (nm ++ ".min_sleep") a.minSleep b.minSleep ++
+  cmpR (nm ++ ".mark_factor") a.markFactor b.markFactor ++ cmpR (nm ++ ".trace_factor") a.traceFactor b.traceFactor ++
+  cmpR (nm ++ ".keep_factor") a.keepFactor b.keepFactor ++ cmpR (nm ++ ".drop_factor") a.dropFactor b.dropFactor ++
+  cmpR (nm ++ ".free_factor") a.freeFactor b.freeFactor
+#eval show IO Unit from do
+  for s in pacingUnclassified do IO.println ("VIOL unclassified: " ++ s)
+  for s in cmpP "Pacing::DEFAULT" pacingDefault Pacing.default do IO.println ("VIOL pacing: " ++ s)
+  for s in cmpP "Pacing::STOP_THE_WORLD" pacingStw Pacing.stopTheWorld do IO.println ("VIOL pacing: " ++ s)
+  unless defaultImplConst == "DEFAULT" do IO.println s!"VIOL default-impl: <Pacing as Default>::default returns `{defaultImplConst}`, the model assumes DEFAULT"
+  -- (field mismatches of the constant the impl returns are reported once, under that constant)
+  let a := metricsNew
+  let b := Metrics.new
+  unless a.pacing = pacingOfDefaultImpl do IO.println "VIOL metrics-new: Metrics::new().pacing is not <Pacing as Default>::default()"
+  for s in cmpN "Metrics::new().total_gcs" a.totalGcs b.totalGcs ++
+      cmpR "Metrics::new().wakeup_amount" a.wakeup b.wakeup ++ cmpR "Metrics::new().artificial_debt" a.artificial b.artificial ++
+      cmpN "Metrics::new().allocated_gcs" a.allocated b.allocated ++ cmpN "Metrics::new().dropped_gcs" a.dropped b.dropped ++
+      cmpN "Metrics::new().freed_gcs" a.freed b.freed ++ cmpN "Metrics::new().marked_gcs" a.marked b.marked ++
+      cmpN "Metrics::new().traced_gcs" a.traced b.traced ++ cmpN "Metrics::new().remembered_gcs" a.remembered b.remembered do
+    IO.println ("VIOL metrics-new: " ++ s)
+  IO.println s!"INFO defaultOk={decide (pacingDefault = Pacing.default)} stwOk={decide (pacingStw = Pacing.stopTheWorld)} newOk={decide (metricsNew = Metrics.new)} defaultImpl={defaultImplConst}"
+'''
+
 EVAL = {
+    "C09": PACING_EVAL,
+    "C10": PACING_EVAL,
     "C12": '''import GcArena.Generated.BrandFlow
 open GcArena.BrandFlow GcArena.Generated
 #eval show IO Unit from do
@@ -440,12 +474,22 @@ def _key_for(prop, viol, demos):
     return f"table-{_slug(viol, 70)}"
 
 
-THEOREM = {"C12": "GcArena.C12s.table_ok", "C13": "GcArena.C13.table_ok / cells_static", "C16": "GcArena.C16.table_complete", "C19": "GcArena.C19s.no_conjure",
+THEOREM = {"C09": "GcArena.C09s.*_matches_source", "C10": "GcArena.C09s.*_matches_source", "C12": "GcArena.C12s.table_ok", "C13": "GcArena.C13.table_ok / cells_static", "C16": "GcArena.C16.table_complete", "C19": "GcArena.C19s.no_conjure",
            "C03": "GcArena.C03s.callgraph / collection_needs_exclusive_arena / names_present",
            "C20": "GcArena.C20s.statics / expanded_statics_are_tracing_callsites / fresh_state"}
 
 
 def _theorem_for(prop, v):
+    if prop in ("C09", "C10"):
+        if v.startswith("pacing: Pacing::DEFAULT"):
+            return "GcArena.C09s.pacing_default_matches_source"
+        if v.startswith("pacing: Pacing::STOP"):
+            return "GcArena.C09s.pacing_stw_matches_source"
+        if v.startswith("default-impl:"):
+            return "GcArena.C09s.default_impl_is_default"
+        if v.startswith("metrics-new:"):
+            return "GcArena.C09s.metrics_new_matches_source"
+        return "GcArena.C09s.pacing_consts_classified"
     if prop == "C12":
         return "GcArena.C12s.no_collect_impl_hides_brand" if v.startswith("hidden:") else "GcArena.C12s.table_ok"
     if prop == "C13":
@@ -471,7 +515,75 @@ def _theorem_for(prop, v):
 
 def _is_tie_only(v):
     """The extraction / certificate broke, no concrete offending entry is exhibited."""
-    return v.startswith(("unclassified:", "names:", "certificate:", "graph:", "fresh-roots:", "marked-arena:", "macro-call:", "brand-type:"))
+    return v.startswith(("pacing:", "default-impl:", "metrics-new:","unclassified:", "names:", "certificate:", "graph:", "fresh-roots:", "marked-arena:", "macro-call:", "brand-type:"))
+
+
+PACING_PROBE = '''use gc_arena::metrics::Pacing;
+fn show(name: &str, p: &Pacing) {
+    println!("{name} sleep_factor {:016x}", p.sleep_factor.to_bits());
+    println!("{name} min_sleep {}", p.min_sleep);
+    println!("{name} mark_factor {:016x}", p.mark_factor.to_bits());
+    println!("{name} trace_factor {:016x}", p.trace_factor.to_bits());
+    println!("{name} keep_factor {:016x}", p.keep_factor.to_bits());
+    println!("{name} drop_factor {:016x}", p.drop_factor.to_bits());
+    println!("{name} free_factor {:016x}", p.free_factor.to_bits());
+}
+fn main() {
+    show("DEFAULT", &Pacing::DEFAULT);
+    show("STOP_THE_WORLD", &Pacing::STOP_THE_WORLD);
+    show("default()", &Pacing::default());
+    let arena = gc_arena::Arena::<gc_arena::Rootable![()]>::new(|_| ());
+    println!("new total_gc_count {}", arena.metrics().total_gc_count());
+    println!("new allocation_debt {:016x}", arena.metrics().allocation_debt().to_bits());
+}
+'''
+
+
+def _pacing_runtime_check(cfg, pc, rlib, deps):
+    """Build and run PACING_PROBE against the crate; compare with the extracted exact values."""
+    import struct
+    from fractions import Fraction
+    pdir = os.path.join(cfg["tw"], "probes")
+    os.makedirs(pdir, exist_ok=True)
+    src = os.path.join(pdir, "pacing-consts.rs")
+    open(src, "w").write(PACING_PROBE)
+    exe = os.path.join(pdir, "pacing-consts.bin")
+    rc, so, se = _run(["rustc", "--edition", "2024", "--extern", f"gc_arena={rlib}", "-L", f"dependency={deps}", "-A", "warnings", src, "-o", exe], timeout=300)
+    out = dict(compared=0, mismatches=[], program=PACING_PROBE)
+    if rc != 0:
+        out["mismatches"].append("the probe program does not compile: " + (se.strip().splitlines() or [""])[0][:200])
+        return out
+    rc, so, se = _run([exe], timeout=60)
+    if rc != 0:
+        out["mismatches"].append(f"the probe program failed (rc={rc})")
+        return out
+    got = {}
+    for line in so.splitlines():
+        parts = line.split()
+        if len(parts) == 3:
+            got[(parts[0], parts[1])] = parts[2]
+    expect = {}
+    for c in pc["consts"]:
+        for f in c["fields"]:
+            if f.get("num") is None:
+                continue
+            fr = Fraction(int(f["num"]), int(f["den"])) * (-1 if f.get("neg") else 1)
+            if f["field"] == "min_sleep":
+                expect[(c["name"], f["field"])] = str(fr.numerator) if fr.denominator == 1 else "?"
+            else:
+                expect[(c["name"], f["field"])] = "%016x" % struct.unpack("<Q", struct.pack("<d", float(fr)))[0]
+    dflt = pc.get("default_impl") or ""
+    for (cn, fn), v in list(expect.items()):
+        if cn == dflt:
+            expect[("default()", fn)] = v
+    expect[("new", "total_gc_count")] = "0"
+    expect[("new", "allocation_debt")] = "%016x" % 0
+    for k, v in sorted(expect.items()):
+        out["compared"] += 1
+        if got.get(k) != v:
+            out["mismatches"].append(f"{k[0]}.{k[1]}: the running crate has {got.get(k)}, the exact value read from the source gives {v}")
+    out["observed"] = {f"{a}.{b}": v for (a, b), v in sorted(got.items())}
+    return out
 
 
 def _explain_collect(entry):
@@ -612,6 +724,24 @@ def run(prop, tier, seed):
         res["summary"]["signatures_scanned"] = tables["brandflow"]["scanned"]
         res["summary"]["macro_calls"] = tables["brandflow"]["macro_calls"]
         res["summary"]["lifetime_params"] = {a["name"]: a["params"] for a in tables["brandflow"]["adts"]}
+    elif prop in ("C09", "C10"):
+        pc = tables["pacing"]
+        entries = sum(len(c["fields"]) for c in pc["consts"]) + 1 + len(pc["metrics_new"])
+        res["summary"]["pacing_consts"] = pc
+        # optional run-time cross-check: the f64 the compiler produced for each literal is the f64
+        # nearest to the exact rational the Lean side was given
+        t1 = time.time()
+        okb, rlib, deps, blog = build_rlib(cfg)
+        if okb:
+            chk = _pacing_runtime_check(cfg, pc, rlib, deps)
+            res["summary"]["pacing_runtime_check"] = chk
+            res["evaluations"] += chk.get("compared", 0)
+            res["disagreements_checked"] += chk.get("compared", 0)
+            for m in chk.get("mismatches", []):
+                problem("pacing-runtime-" + _slug(m), f"run-time cross-check of the pacing constants: {m}", False,
+                        [f"property {prop}: the f64 bit pattern of a `Pacing` constant field differs from the f64 nearest to the exact rational "
+                         "the translator read from the literal (or the program did not build / run)", m], chk.get("program", "").splitlines())
+        timings["pacing_runtime_check"] = round(time.time() - t1, 2)
     else:
         entries = len(tables["callgraph"]["fns"])
         res["summary"]["edges"] = len(tables["callgraph"]["edges"])
@@ -729,6 +859,8 @@ def run(prop, tier, seed):
             text = f"{thm} fails for `{v}`"
             if _is_tie_only(v):
                 text = f"{thm} cannot be established: {v} (the translator fails closed; no failing input is exhibited)"
+                if v.startswith(("pacing:", "default-impl:", "metrics-new:")):
+                    text = f"{thm} fails: {v} — the Lean model's constant no longer mirrors src/metrics.rs (tie broke; no failing input)"
             if prop == "C16" or v.startswith("hidden:"):
                 ent = next((e for e in tables["collect"]["entries"] if v in ("impl: " + e["text"], "hidden: " + e["text"])), None)
                 lines = [f"table entry: {json.dumps(ent)}"] + _explain_collect(ent)
